@@ -90,7 +90,10 @@ async fn case(rep: &mut Report, rng: &mut Rng, tx: Tx, tr: Transport, linger_ms:
     tokio::spawn(async move {
       let mut got: Vec<Vec<Vec<u8>>> = vec![];
       let mut idle = 0;
+      let mut errs: Vec<String> = vec![];
+      let t_reader = Instant::now();
       loop {
+        let t_call = Instant::now();
         match r.recv_multipart().await {
           Ok(m) => {
             idle = 0;
@@ -103,10 +106,16 @@ async fn case(rep: &mut Report, rng: &mut Rng, tx: Tx, tr: Transport, linger_ms:
               tokio::time::sleep(Duration::from_millis(5)).await;
             }
           }
-          Err(_) => {
+          Err(e) => {
             idle += 1;
+            let k = util::err_kind(&e);
+            // an error that is not the 500 ms RCVTIMEO expiring (wrong kind, or returned early) means the reader
+            // did not really wait: remembered so that an incomplete delivery is not blamed on LINGER
+            if (k != "Timeout" && k != "ResourceLimitReached") || t_call.elapsed() < Duration::from_millis(400) {
+              errs.push(format!("{} after {:?}", k, t_call.elapsed()));
+            }
             if idle >= 5 {
-              return got;
+              return (got, errs, t_reader.elapsed());
             }
           }
         }
@@ -162,7 +171,7 @@ async fn case(rep: &mut Report, rng: &mut Rng, tx: Tx, tr: Transport, linger_ms:
   })
   .await;
   let close_time = t0.elapsed();
-  let got = tokio::time::timeout(Duration::from_secs(60), reader).await.ok().and_then(|x| x.ok()).unwrap_or_default();
+  let (got, reader_errs, reader_ran) = tokio::time::timeout(Duration::from_secs(60), reader).await.ok().and_then(|x| x.ok()).unwrap_or_default();
   let cfg = format!("{:?} over {} LINGER={}ms depth={:?} ({}x{}B, {} accepted) via {:?} reader={}", tx, tr.name(), linger_ms, depth, n, len, accepted, how, if slow_reader { "slow" } else { "fast" });
   rep.case(&(tx, tr, linger_ms, depth, how, slow_reader), true);
   rep.max(&format!("max:close_ms[linger={}]", linger_ms), close_time.as_millis() as u64);
@@ -175,11 +184,14 @@ async fn case(rep: &mut Report, rng: &mut Rng, tx: Tx, tr: Transport, linger_ms:
     // DEALER egress loss/reorder is recorded under C01; here only integrity + duplicates count
     kinds.retain(|k| *k != "lost" && *k != "reordered");
   }
-  if !kinds.is_empty() {
+  if kinds == vec!["lost"] && !reader_errs.is_empty() {
+    // the reading side gave up on errors other than its receive timeout: not a verdict on LINGER
+    rep.inconclusive(format!("{}: reader stopped after {:?} on unexpected recv errors {:?}; got {} of {}", cfg, reader_ran, &reader_errs[..reader_errs.len().min(5)], got.len(), accepted));
+  } else if !kinds.is_empty() {
     let incomplete_only = kinds == vec!["lost"];
     // one defect whatever the depth / LINGER value: keyed on the sender type and transport class
     let sig = if incomplete_only { format!("linger_did_not_wait_for_accepted_messages|tx={:?}|{}", tx, if tr == Transport::Inproc { "inproc" } else { "stream" }) } else { format!("{}_at_close|{}", kinds.join("+"), sigd) };
-    rep.violation(sig, format!("{}: close took {:?}; receiver got {} of {} accepted: {}", cfg, close_time, got.len(), accepted, kinds.join("+")), json!({"config": cfg, "close_ms": close_time.as_millis() as u64, "received": got.len(), "accepted": accepted, "findings": f.to_json()}));
+    rep.violation(sig, format!("{}: close took {:?}; receiver got {} of {} accepted: {}", cfg, close_time, got.len(), accepted, kinds.join("+")), json!({"config": cfg, "close_ms": close_time.as_millis() as u64, "received": got.len(), "accepted": accepted, "reader_ran_ms": reader_ran.as_millis() as u64, "reader_unexpected_errors": reader_errs, "findings": f.to_json()}));
   }
   // (2) time bounds
   if closed.is_err() {
@@ -192,12 +204,227 @@ async fn case(rep: &mut Report, rng: &mut Rng, tx: Tx, tr: Transport, linger_ms:
   let _ = tokio::time::timeout(Duration::from_secs(12), rctx.term()).await;
 }
 
+/// (settled) The sender's side is taken out of the picture: a small burst (well below the kernel socket
+/// buffers) is accepted, the sender waits until its session has written everything, and only then closes.
+/// The receiving application is slow (small RCVHWM, starts late and/or paces itself), so at the moment the
+/// peer's end-of-stream arrives, accepted messages are still parked in the receiving session / per-pipe
+/// queue. Everything accepted before close must still reach the reading peer, for every LINGER value.
+#[allow(clippy::too_many_arguments)]
+async fn settled_case(rep: &mut Report, rng: &mut Rng, tx: Tx, tr: Transport, rcvhwm: i32, n: u32, len: usize, linger_ms: i32, how: How, reader_late: bool, pace_ms: u64, rcvbatch: Option<i32>, instant: bool) {
+  let rctx = util::new_ctx();
+  let same_ctx = tr == Transport::Inproc;
+  let sctx = if same_ctx { rctx.clone() } else { util::new_ctx() };
+  let (st, rt) = match tx {
+    Tx::Push => (SocketType::Push, SocketType::Pull),
+    Tx::Router => (SocketType::Router, SocketType::Dealer),
+    Tx::Dealer => (SocketType::Dealer, SocketType::Router),
+    Tx::Pub => (SocketType::Pub, SocketType::Sub),
+  };
+  let r = rctx.socket(rt).unwrap();
+  util::set_i32(&r, opt::RCVHWM, rcvhwm).await;
+  util::set_i32(&r, opt::RCVTIMEO, 400).await;
+  if let Some(b) = rcvbatch {
+    util::set_i32(&r, opt::RCVBATCH_COUNT, b).await;
+  }
+  if rt == SocketType::Dealer {
+    r.set_option_raw(opt::ROUTING_ID, b"RX").await.unwrap();
+  }
+  let ep = match util::bind_fresh(&r, tr).await {
+    Ok(e) => e,
+    Err(e) => {
+      rep.inconclusive(format!("bind {e}"));
+      return;
+    }
+  };
+  let s = sctx.socket(st).unwrap();
+  util::set_i32(&s, opt::SNDHWM, 1000).await;
+  util::set_i32(&s, opt::LINGER, linger_ms).await;
+  util::set_i32(&s, opt::SNDTIMEO, 2000).await;
+  if st == SocketType::Router {
+    s.set_option(opt::ROUTER_MANDATORY, true).await.unwrap();
+  }
+  if s.connect(&ep).await.is_err() {
+    rep.inconclusive("connect failed".to_string());
+    return;
+  }
+  if !instant {
+    tokio::time::sleep(util::scaled(Duration::from_millis(300))).await;
+  }
+  let run = (rng.next() & 0x7FFF_FFFF) as u32;
+  let (go_tx, go_rx) = tokio::sync::oneshot::channel::<()>();
+  let reader = {
+    let r = r.clone();
+    let strip = rt == SocketType::Router;
+    tokio::spawn(async move {
+      if reader_late {
+        let _ = go_rx.await;
+      }
+      let mut got: Vec<Vec<Vec<u8>>> = vec![];
+      let mut idle = 0;
+      while (got.len() as u32) < n {
+        match r.recv_multipart().await {
+          Ok(m) => {
+            idle = 0;
+            let mut v: Vec<Vec<u8>> = m.into_iter().map(|f| f.data().unwrap_or(&[]).to_vec()).collect();
+            if strip && !v.is_empty() {
+              v.remove(0);
+            }
+            got.push(v);
+            if pace_ms > 0 {
+              tokio::time::sleep(Duration::from_millis(pace_ms)).await;
+            }
+          }
+          Err(_) => {
+            idle += 1;
+            if idle >= 6 {
+              break;
+            }
+          }
+        }
+      }
+      // one more read: nothing beyond the accepted set may show up
+      if let Ok(Ok(m)) = tokio::time::timeout(Duration::from_millis(50), r.recv_multipart()).await {
+        got.push(m.into_iter().map(|f| f.data().unwrap_or(&[]).to_vec()).collect());
+      }
+      got
+    })
+  };
+  let mut sent: Vec<SentMsg> = vec![];
+  for seq in 0..n {
+    let fr = oracles::build_message(run, 1, seq, u32::MAX, &[len]);
+    let res = if st == SocketType::Router { s.send_multipart(vec![util::msg(b"RX".to_vec(), true), util::msg(fr[0].clone(), false)]).await } else { s.send(util::msg(fr[0].clone(), false)).await };
+    sent.push(SentMsg { sender: 1, seq, dest: u32::MAX, frame_lens: vec![len], status: if res.is_ok() { SendStatus::Accepted } else { SendStatus::Maybe } });
+    if res.is_err() {
+      break;
+    }
+  }
+  let accepted = sent.iter().filter(|x| x.status == SendStatus::Accepted).count();
+  // let the sending session put everything on the wire (total <= 48 KiB: fits the kernel buffers of tcp and unix sockets)
+  if !instant {
+    tokio::time::sleep(util::scaled(Duration::from_millis(700))).await;
+  }
+  let t0 = Instant::now();
+  let closed = tokio::time::timeout(Duration::from_secs(45), async {
+    match how {
+      How::Close => {
+        let _ = s.close().await;
+      }
+      How::Term => {
+        if same_ctx {
+          let _ = s.close().await;
+        } else {
+          let _ = sctx.term().await;
+        }
+      }
+      How::CloseThenTerm => {
+        let _ = s.close().await;
+        if !same_ctx {
+          let _ = sctx.term().await;
+        }
+      }
+      How::Drop => {
+        drop(s);
+        if !same_ctx {
+          let _ = sctx.term().await;
+        }
+      }
+    }
+  })
+  .await;
+  let close_time = t0.elapsed();
+  if reader_late {
+    // give the end-of-stream time to reach the receiving session before the application starts reading
+    tokio::time::sleep(util::scaled(Duration::from_millis(150))).await;
+  }
+  let _ = go_tx.send(());
+  let got = tokio::time::timeout(Duration::from_secs(90), reader).await.ok().and_then(|x| x.ok()).unwrap_or_default();
+  let cfg = format!("{}: {:?} over {} {}x{}B ({} accepted) RCVHWM={} RCVBATCH_COUNT={:?} LINGER={}ms via {:?}, reader {} pace {}ms", if instant { "instant (connect, send, close back to back)" } else { "settled" }, tx, tr.name(), n, len, accepted, rcvhwm, rcvbatch, linger_ms, how, if reader_late { "starts after the close" } else { "running" }, pace_ms);
+  rep.case(&("settled", instant, tx, tr, rcvhwm, n, len, linger_ms, how, reader_late, pace_ms, rcvbatch), true);
+  rep.count("settled_cases", 1);
+  rep.count("settled_messages_accepted", accepted as u64);
+  rep.count("settled_messages_received", got.len() as u64);
+  if closed.is_err() {
+    rep.violation(format!("close_never_returned|{:?}", how), format!("{}: close/term did not return within 45 s", cfg), json!({"config": cfg}));
+  }
+  let f = oracles::check_receiver(run, &sent, &got, None, true);
+  let kinds = f.kinds();
+  if !kinds.is_empty() {
+    let sig = format!("{}_close_{}|tx={:?}|{}", if instant { "instant" } else { "settled" }, kinds.join("+"), tx, if reader_late { "reader_after_close" } else { "slow_reader" });
+    rep.violation(sig, format!("{}: close took {:?}; receiver got {} of {} accepted although everything had been on the wire for 0.7 s before the close: {}", cfg, close_time, got.len(), accepted, kinds.join("+")), json!({"config": cfg, "received": got.len(), "accepted": accepted, "findings": f.to_json()}));
+  }
+  let _ = tokio::time::timeout(Duration::from_secs(12), rctx.term()).await;
+}
+
+fn settled_layer(rep: &mut Report, rng: &mut Rng, rt: &tokio::runtime::Runtime, args: &Args) {
+  let mut idx = 0usize;
+  // inproc, no pauses at all: connect(), burst, close() back to back (the binder may not even have attached the pipe yet)
+  for k in 0..(if args.thorough() { 40 } else { 12 }) {
+    if args.mine(k) {
+      let linger = *rng.pick(&[-1, 10_000]);
+      let (n, len) = *rng.pick(&[(1u32, 10usize), (5, 100), (100, 100), (1000, 1000), (5000, 4096)]);
+      let how = *rng.pick(&[How::Close, How::Drop]);
+      let tx = *rng.pick(&[Tx::Push, Tx::Router]);
+      let late = rng.chance(1, 3);
+      let _ = util::guarded(rt, settled_case(rep, rng, tx, Transport::Inproc, 100_000, n, len, linger, how, late, 0, None, true));
+    }
+  }
+  // inproc has no kernel buffer to respect: deep backlogs (20 MB) in front of a reader that starts after the close
+  for (k, how) in [How::Close, How::Drop].into_iter().enumerate() {
+    for late in [true, false] {
+      if args.mine(k) {
+        let linger = *rng.pick(&[-1, 10_000]);
+        let _ = util::guarded(rt, settled_case(rep, rng, Tx::Push, Transport::Inproc, 100_000, 5000, 4096, linger, how, late, 0, None, false));
+      }
+    }
+  }
+  let hwms: &[i32] = if args.thorough() { &[1, 2, 5, 20, 100] } else { &[1, 5, 50] };
+  for tx in [Tx::Push, Tx::Router] {
+    for tr in [Transport::Tcp, Transport::Ipc, Transport::Inproc] {
+      for &hwm in hwms {
+        for how in [How::Close, How::Term, How::CloseThenTerm, How::Drop] {
+          for late in [true, false] {
+            idx += 1;
+            if !args.mine(idx) {
+              continue;
+            }
+            if !args.thorough() && (idx / args.nshards.max(1)) % 2 == 1 {
+              continue;
+            }
+            let linger = *rng.pick(&[-1, 0, 100, 10_000]);
+            // total payload <= 48 KiB
+            let (n, len) = *rng.pick(&[(100u32, 100usize), (300, 60), (40, 1000), (150, 300), (20, 40), (230, 200)]);
+            let pace = if late { *rng.pick(&[0u64, 0, 1]) } else { *rng.pick(&[2u64, 5]) };
+            let rcvbatch = *rng.pick(&[None, None, Some(1), Some(4)]);
+            if !util::guarded(rt, settled_case(rep, rng, tx, tr, hwm, n, len, linger, how, late, pace, rcvbatch, false)) {
+              for p in util::take_panics() {
+                if p.in_rzmq {
+                  rep.violation(format!("panic|{}", util::panic_site(&p.location)), format!("panic at {}: {}", p.location, p.message), json!({"frames": p.backtrace_head}));
+                } else {
+                  rep.inconclusive(format!("harness panic at {}: {}", p.location, p.message));
+                }
+              }
+            }
+          }
+        }
+      }
+    }
+  }
+}
+
 fn main() {
   let args = Args::parse();
   util::install_panic_watch();
   let mut rep = Report::new("C15", &args.shard_name());
   let mut rng = Rng::new(args.seed.wrapping_mul(275604541).wrapping_add(args.shard as u64));
   let rt = util::runtime(2);
+  if args.only.as_deref() == Some("settled") {
+    settled_layer(&mut rep, &mut rng, &rt, &args);
+    util::cleanup_ipc_dir();
+    rep.sample(json!({"layer": "settled", "note": "burst <= 48 KiB accepted, 0.7 s settle, then close/term/drop with LINGER in {-1,0,100,10000}; receiver RCVHWM small, reads late or slowly"}));
+    rep.merge_hooks();
+    rep.emit();
+    return;
+  }
   let mut idx = 0usize;
   let lingers: &[i32] = if args.thorough() { &[-1, 0, 50, 1000, 10_000] } else { &[-1, 0, 10_000] };
   let depths: &[Depth] = if args.thorough() { &[Depth::Zero, Depth::BelowHwm, Depth::AboveHwm, Depth::BeyondKernel] } else { &[Depth::BelowHwm, Depth::BeyondKernel] };
